@@ -32,7 +32,7 @@ def swapRotate (m : Mode) (a : Acc) (buf : List α) (baseRow nextRow mid numCols
   else pure buf
 
 /-- inner `loop` src/translate.rs:80-116; returns `(buf, swap_count)`.  Fuelled. -/
-def translateInner (m : Mode) (a : Acc) (getRowMut : Nat → Res Win) (numCols numRows colMid rowAdj baseRow : Nat) :
+def translateInner (m : Mode) (a : Acc) (getRowMut : Nat → Res Win) (numCols numRows colMid rowMid rowAdj baseRow : Nat) :
     Nat → List α → Nat → Nat → Nat → Res (List α × Nat)
   | 0, _, _, _, _ => throw .fuel
   | fuel + 1, buf, mid, nextRow, swapCount => do
@@ -48,21 +48,22 @@ def translateInner (m : Mode) (a : Acc) (getRowMut : Nat → Res Win) (numCols n
       let buf ← swapRotate m a buf baseRow nextRow mid numCols
       let mid ← uadd m mid colMid
       let mid ← if mid ≥ numCols then usub m mid numCols else pure mid
-      let nextRow ← uadd m nextRow rowAdj
-      translateInner m a getRowMut numCols numRows colMid rowAdj baseRow fuel buf mid nextRow swapCount
+      -- post-fix: advance modulo `num_rows` without forming `next_row + row_adj_abs` when that could exceed `num_rows`
+      let nextRow ← if nextRow ≥ rowMid then usub m nextRow rowMid else uadd m nextRow rowAdj
+      translateInner m a getRowMut numCols numRows colMid rowMid rowAdj baseRow fuel buf mid nextRow swapCount
 
 /-- outer `while` src/translate.rs:74-127.  Fuelled. -/
-def translateOuter (m : Mode) (a : Acc) (getRowMut : Nat → Res Win) (numCols numRows colMid rowAdj : Nat) :
+def translateOuter (m : Mode) (a : Acc) (getRowMut : Nat → Res Win) (numCols numRows colMid rowMid rowAdj : Nat) :
     Nat → List α → Nat → Nat → Res (List α)
   | 0, _, _, _ => throw .fuel
   | fuel + 1, buf, swapCount, baseRow =>
     if swapCount < numRows then do
       let nextRow ← uadd m baseRow rowAdj
-      let (buf, swapCount) ← translateInner m a getRowMut numCols numRows colMid rowAdj baseRow (numRows + 2) buf colMid nextRow swapCount
+      let (buf, swapCount) ← translateInner m a getRowMut numCols numRows colMid rowMid rowAdj baseRow (numRows + 2) buf colMid nextRow swapCount
       if swapCount ≥ numRows then pure buf
       else do
         let baseRow ← uadd m baseRow 1
-        translateOuter m a getRowMut numCols numRows colMid rowAdj fuel buf swapCount baseRow
+        translateOuter m a getRowMut numCols numRows colMid rowMid rowAdj fuel buf swapCount baseRow
     else pure buf
 
 /-- `translate_with_wrap` src/translate.rs:37-129.  `getRowMut` = the implementor's `get_unchecked_row_mut`. -/
@@ -81,7 +82,7 @@ def Acc.translateWithWrap (m : Mode) (a : Acc) (getRowMut : Nat → Res Win) (bu
     else pure buf
   else do
     let rowAdj ← usub m numRows rowMid
-    translateOuter m a getRowMut numCols numRows colMid rowAdj (numRows + 2) buf 0 0
+    translateOuter m a getRowMut numCols numRows colMid rowMid rowAdj (numRows + 2) buf 0 0
 
 /-- `flip_rows` src/translate.rs:143-148: `while let (Some(r1), Some(r2)) = (iter.next(), iter.next_back())`.  Fuelled. -/
 def flipRowsLoop (m : Mode) : Nat → Rows → List α → Res (List α)
